@@ -5,6 +5,7 @@
 package main
 
 import (
+	"regexp"
 	"context"
 	dsql "database/sql"
 	"database/sql/driver"
@@ -159,6 +160,22 @@ func newCtx(db *recDB, cluster bool) *shared.PlannerContext {
 
 const marker = "zqxmark"
 const reMarker = "zqx.*mark"
+
+// Prometheus / Pyroscope matchers that accept the empty string are planned on another branch (the series lacking the label are
+// selected as well: an exclusion sub-select, fixes 26a1399 and its PromQL counterpart).  Which branch is taken depends on the value
+// only through "does the anchored regex match the empty string": the baseline of such a value is a harmless regex that matches it too.
+const optMarker = "(zqxmark)?"
+
+func matcherMarker(op, v string) string {
+	if op == "=~" || op == "!~" {
+		if re, err := regexp.Compile("^(?:" + v + ")$"); err == nil && re.MatchString("") {
+			return optMarker
+		}
+	}
+	return marker
+}
+
+var tmplOp = regexp.MustCompile(`(=~|!~|!=|=)%s`)
 
 // result of placing one value in one position
 type res struct {
@@ -448,7 +465,12 @@ func promSite(name string, tp labels.MatchType, inName bool, down bool, fn strin
 		if err != nil {
 			return rejected("string: " + short(err))
 		}
-		return plain([]string{str}, v, "")
+		r := plain([]string{str}, v, "")
+		if !inName && v != optMarker {
+			r.mk = matcherMarker(tp.String(), v)
+			r.mklit = r.mk
+		}
+		return r
 	}}
 }
 
@@ -783,10 +805,24 @@ func sites() []site {
 
 	// ---------------- Pyroscope selectors
 	profSel := func(name string, tmpl string, call func(ps *service.ProfService, q string) error) site {
-		return svcSite(name, false, func(reg *registry, v string) (string, error) {
+		st := svcSite(name, false, func(reg *registry, v string) (string, error) {
 			ps := &service.ProfService{DataSession: reg}
 			return v, call(ps, fmt.Sprintf(tmpl, strconv.Quote(v)))
 		})
+		op := ""
+		if m := tmplOp.FindStringSubmatch(tmpl); m != nil {
+			op = m[1]
+		}
+		run := st.run
+		st.run = func(v string) res {
+			r := run(v)
+			if v != optMarker {
+				r.mk = matcherMarker(op, v)
+				r.mklit = r.mk
+			}
+			return r
+		}
+		return st
 	}
 	s = append(s, profSel("prof.labelnames.sel", `{service_name=%s, foo=~"bar"}`, func(ps *service.ProfService, q string) error {
 		_, err := ps.LabelNames(context.Background(), []string{q}, tFrom, tTo)
@@ -812,6 +848,19 @@ func sites() []site {
 		_, err := ps.AnalyzeQuery(context.Background(), q, tFrom, tTo)
 		return err
 	}))
+	// round 3: the remaining pseudo labels of planner_selector.go (each has its own clause builder)
+	for _, t := range []struct{ name, tmpl string }{
+		{"prof.pseudo.name", `{__name__=%s}`},
+		{"prof.pseudo.period_type", `{__period_type__!=%s, foo="x"}`},
+		{"prof.pseudo.period_unit.re", `{__period_unit__=~%s}`},
+		{"prof.pseudo.sample_unit.nre", `{__sample_unit__!~%s, service_name="svc"}`},
+		{"prof.pseudo.profile_type.re", `{__profile_type__=~%s}`},
+	} {
+		s = append(s, profSel(t.name, t.tmpl, func(ps *service.ProfService, q string) error {
+			_, err := ps.LabelNames(context.Background(), []string{q}, tFrom, tTo)
+			return err
+		}))
+	}
 	s = append(s, svcSite("prof.labelvalues.name", false, func(reg *registry, v string) (string, error) {
 		ps := &service.ProfService{DataSession: reg}
 		_, err := ps.LabelValues(context.Background(), []string{`{a="b"}`}, v, tFrom, tTo)
